@@ -1153,7 +1153,7 @@ def check_counter(ctx, tu):
     ctx.floor(W1, nw, 4, 'four copy/move special members')
     # -- type
     n += 1
-    inst = 'RefCountedObject::%s' % cnt['name']
+    inst = 'RefCountedObject::%s%s' % (cnt['name'], CONFIG_TAG[0])
     if ATOMIC_INT.match(cnt['ct']):
         ctx.ok(R2, inst + ' type', cnt['ct'], HDR)
         # width: the number of references is not bounded by a small pool (explicit refInc() calls are not even bounded by
@@ -1182,7 +1182,7 @@ def check_counter(ctx, tu):
         ctx.broken('R-C08-2: no constructor of RefCountedObject with a body (the driver must odr-use the default constructor)')
     for f in ctors:
         n += 1
-        inst = 'RefCountedObject::RefCountedObject %s initial count' % f['fty']
+        inst = 'RefCountedObject::RefCountedObject %s initial count%s' % (f['fty'], CONFIG_TAG[0])
         key = '%s|%s|RefCountedObject::RefCountedObject|initial-count' % (R2, file)
         val = 'missing'
         for blk in tu.cfg(f).blocks.values():
@@ -1236,7 +1236,7 @@ def check_counter(ctx, tu):
     FOLLOWED_HELPERS[id(tu)] = followed
     n += 1
     g = tu.cfg(fuse)
-    inst = 'RefCountedObject::useCount'
+    inst = 'RefCountedObject::useCount' + CONFIG_TAG[0]
     kinds = [atomic_call(tu, x, counter_ids) for b, i, x in g.stmts()]
     kinds = [k for k in kinds if k]
     rets = [x for b, i, x in g.stmts() if x.get('kind') == 'ReturnStmt']
@@ -1378,7 +1378,7 @@ def check_rmw_fn(ctx, tu, f, counter_ids, sign, file, followed=None):
     R2 = 'R-C08-2'
     g = tu.cfg(f)
     name = f['q'].split('::')[-1]
-    inst = 'RefCountedObject::%s' % name
+    inst = 'RefCountedObject::%s%s' % (name, CONFIG_TAG[0])
     kbase = '%s|%s|RefCountedObject::%s|' % (R2, file, name)
     looped = bool(g.back_edges())
     if looped:
@@ -1830,6 +1830,17 @@ def run(ctx):
         check_counter(ctx, tu_nd)
     finally:
         CONFIG_TAG[0] = ''
+    # the header is also compiled by clients and in the other tasking configurations: preprocessor-conditional code (a counter that
+    # is atomic only when a tasking macro is defined) must satisfy the clauses in each of them.  DEBUG = no RKCOMMON_TASKING_* macro,
+    # which is also what a header-only client of IntrusivePtr.h sees.
+    for cfg in (['DEBUG'] if ctx.tier != 'thorough' else ['DEBUG', 'OMP', 'INTERNAL']):
+        CONFIG_TAG[0] = ' {tasking configuration %s}' % cfg
+        try:
+            tu_c = ctx.front.parse('drivers/c08_refcount.cpp', cfg)
+            check_effects(ctx, tu_c, set())
+            check_counter(ctx, tu_c)
+        finally:
+            CONFIG_TAG[0] = ''
     if ctx.tier == 'thorough':
         tu2 = ctx.front.parse('drivers/c08_refcount.cpp', 'DEBUG', std='gnu++17')
         analyse(ctx, tu2, [])
